@@ -41,7 +41,7 @@ CLAIMS = {
              "validated on the generated universe each run.",
         tech="Lean 4 proof over translator-regenerated tables + tree-shape and row correspondence"),
     'C06': dict(
-        text="c06_outcome, c06_consistent_with_an, c06_none_iff, c06_ok, c06_multi_iff: the three outcomes are exactly 0 / 1 / >=2 "
+        text="c06_outcome, c06_consistent_with_an, c06_none_iff, c06_ok, c06_ok_iff (both directions), c06_multi_iff, c06_trichotomy: the three outcomes are exactly 0 / 1 / >=2 "
              "satisfying assignments and the value is the row an(...) yields. Correspondence on balanced 0/1/>=2 cases (30% of the "
              "one-variable descriptions in predicate form, the quantifier applied to the term: the(T(From(d), f=v))), two "
              "evaluations, caching on/off.",
